@@ -968,6 +968,9 @@ def r6(ctx: RuleCtx) -> None:
         seen: T.Set[str] = set()
         for f in ex:
             a = call_args(f.node, ['key', 'new_value', 'first_invocation'])
+            if set(a) == {'key', 'new_value'}:
+                problem = (f, f'{f.text}: first_invocation is not passed on (the parameter default False applies to the dependants)')
+                break
             if set(a) != {'key', 'new_value', 'first_invocation'}:
                 raise Undecided(f'{so.qn}: recursive call {f.text}')
             k, v = a['key'], a['new_value']
